@@ -69,6 +69,31 @@ CHECKS['C05'] = dict(
     note='Trusted: CrossHair+z3, synchronous thread stubs (bodies run inline), FakeClock, the decision table in props/C05.py. Timeout is a scripted behaviour. <=4 invocations, repeat_limit in {None,1..4}.',
     technique='symbolic execution (CrossHair/z3) vs decision table',
     design='3/C05')
+CHECKS['C01'] = dict(
+    category='other',
+    text='Bounded symbolic execution (CrossHair/z3) of the real test executor (threads made synchronous) on trees of family T with symbolic per-invocation scripts (any two phases deviate with any of 13 behaviour kinds, diagnoser codes, stop_on_first_failure, allow_unset): the record outcome equals the ladder of the statement computed by an independent specification interpreter and PASS implies every conjunct on the observed record; '
+         'plus an inductive lemma on the finalisation ladder from an arbitrary executor state, a two-consecutive-runs condition (no leak of settings between runs) and fault injection of executor-internal errors.',
+    note='Trusted: CrossHair+z3; synchronous thread stubs, FakeClock, the specification interpreter vlib/spec_events.py. Tree shapes are enumerated (family T), not symbolic. One known finding (executor-internal error finalises normally, see known_findings.json).',
+    technique='symbolic execution (CrossHair/z3) of the real executor vs specification interpreter; inductive lemma',
+    design='3/C01')
+CHECKS['C02'] = dict(
+    category='other',
+    text='Bounded symbolic execution (CrossHair/z3) of the real test executor (threads made synchronous) on every tree of family T (14 quick / 22 thorough shapes covering every node kind under every collection kind) with symbolic scripts: the call log (order, multiplicity) and the phase / subtest / branch / checkpoint records equal those produced by an independent executable reading of docs/event_sequence.md for every script within the bound.',
+    note='Trusted: CrossHair+z3; synchronous thread stubs, FakeClock; vlib/spec_events.py (validated natively against the real executor on seeded scripts). Tree shapes are enumerated, not symbolic; at most two phases deviate from nominal in the quick tier. The sampling part of the quantifier is not done.',
+    technique='symbolic execution (CrossHair/z3) of the real executor vs specification interpreter of docs/event_sequence.md',
+    design='3/C02')
+CHECKS['C03'] = dict(
+    category='other',
+    text='Programs part only: bounded symbolic execution (CrossHair/z3) of the real executor on the trees of T that contain groups (top level, in a subtest, nested in main, nested in teardown, behind a branch) with symbolic scripts; a monitor written from the statement checks on the observed call log that every teardown node of an entered group ran exactly once after main stopped (exception, STOP, timeout, failed subtest, nested-group failure, terminal earlier teardown node), that nothing of the group runs when setup did not complete, and that a terminal teardown result propagates outward.',
+    note='Trusted: CrossHair+z3, synchronous thread stubs, the monitor in props/C03.py. NOT covered: the abort/schedule part of the quantifier (single operator abort at any moment) - see DESIGN.md; plug tearDown ordering is C08.',
+    technique='symbolic execution (CrossHair/z3) of the real executor with a teardown monitor on the call log',
+    design='3/C03')
+CHECKS['C18'] = dict(
+    category='model_checking', engine='seqz',
+    text='Bounded model checking of the sequentialised real code: SubscribableStateMixin.asdict_with_event / notify_update and PlugManager.wait_for_plug_update are rewritten from their live source into coroutines with statement-level preemption points and run on cooperative primitives; scheduler decisions (<= 2 preemptions quick / 3 thorough, thread picks) are symbolic ints and CrossHair/z3 exhausts the schedules: a notification issued after a snapshot sets that watcher event, one notification wakes all registered watchers, looping watchers reach the final state, nobody is blocked forever.',
+    note='Trusted: CrossHair+z3, the sequentialiser and cooperative primitives in vlib/seqz (counterexamples replay in the sequentialised model, not on real threads), WeakSet replaced by a set. Preemption only between statements of the encoded functions.',
+    technique='sequentialisation of real code + symbolic schedule (CrossHair/z3), preemption-bounded',
+    design='3/C18')
 NA_REASON = {}
 DEFAULT_NA = 'check not built yet in this round (work in progress; see DESIGN.md section 6 for the plan)'
 
@@ -98,6 +123,7 @@ def main():
     'engines': [
       {'name': 'xh', 'path': 'vlib/xh.py', 'serves_properties': sorted(CHECKS), 'kind_free_text': 'E1: CrossHair 0.0.110 path-exhaustive symbolic execution of the real Python code, z3 back end; one subprocess per (sub)condition'},
       {'name': 'smt', 'path': 'vlib/smt.py', 'serves_properties': ['C07'], 'kind_free_text': 'E2: direct z3 queries (FP, regex) generated from live AST / compiled patterns'},
+      {'name': 'seqz', 'path': 'vlib/seqz/core.py', 'serves_properties': ['C13', 'C18'], 'kind_free_text': 'E3: AST sequentialisation of real functions into coroutines + cooperative primitives + scheduler with symbolic decisions; back end CrossHair/z3'},
     ],
     'checks': checks,
     'not_applicable': [{'property_id': p, 'reason': NA_REASON.get(p, DEFAULT_NA)} for p in ALL if p not in CHECKS],
